@@ -24,6 +24,12 @@ type access struct {
 
 type unrec struct{ at, what string }
 
+type wgAdd struct {
+	class, fn             string
+	token, ctor, hasToken bool
+	at                    string
+}
+
 type lockedCall struct {
 	callee              string
 	claimed, held, ctor bool
@@ -67,13 +73,14 @@ type analysis struct {
 	sites       map[string]string // file:line of a Lock call or of a call into a cache -> class / cache qualifier
 	classes     map[string]bool
 	lockedCalls map[lockedCall]bool
+	wgAdds      map[wgAdd]bool
 	tokenTakes  map[[2]string]bool // (function, "true"/"false": the receive is one arm of a select with a ctx.Done() arm)
 	inCtxSelect bool
 }
 
 func newAnalysis() *analysis {
 	return &analysis{edges: map[edge]edgeWit{}, accesses: map[string]access{}, unrecs: map[unrec]bool{}, leaks: map[string]bool{},
-		memo: map[string][]*state{}, active: map[string]bool{}, reached: map[string]bool{}, rootSeen: map[string]bool{}, sites: map[string]string{}, classes: map[string]bool{}, lockedCalls: map[lockedCall]bool{}, tokenTakes: map[[2]string]bool{}}
+		memo: map[string][]*state{}, active: map[string]bool{}, reached: map[string]bool{}, rootSeen: map[string]bool{}, sites: map[string]string{}, classes: map[string]bool{}, lockedCalls: map[lockedCall]bool{}, tokenTakes: map[[2]string]bool{}, wgAdds: map[wgAdd]bool{}}
 }
 
 func (a *analysis) unrecognised(p token.Pos, what string) { a.unrecs[unrec{pos(p), what}] = true }
@@ -113,7 +120,7 @@ func (a *analysis) run() {
 			st.bind[k] = v
 		}
 		for _, h := range r.held {
-			st.held = append(st.held, heldLock{h, "thread start"})
+			st.held = append(st.held, heldLock{class: h, at: "thread start"})
 			a.classes[h] = true
 		}
 		for _, ex := range a.invoke(c, r.f, []*state{st}) {
@@ -155,11 +162,14 @@ func (a *analysis) checkSlots() {
 
 // ---------------------------------------------------------------- recording
 
+// classes of sync.Mutex fields (the other classes are wait groups, tokens and waited-for pseudo resources)
+var mutexClasses = map[string]bool{}
+
 func mutexOnly(held []heldLock) []string {
 	out := []string{}
 	seen := map[string]bool{}
 	for _, h := range held {
-		if strings.HasSuffix(h.class, ".mu") && !seen[h.class] {
+		if mutexClasses[h.class] && !seen[h.class] {
 			seen[h.class] = true
 			out = append(out, h.class)
 		}
@@ -171,13 +181,16 @@ func mutexOnly(held []heldLock) []string {
 func (a *analysis) acquire(fr *frame, st *state, class string, p token.Pos, keep bool) {
 	a.classes[class] = true
 	for _, h := range st.held {
+		if h.unpub != nil {
+			continue
+		}
 		e := edge{h.class, class}
 		if _, ok := a.edges[e]; !ok {
 			a.edges[e] = edgeWit{h.at, pos(p), fr.c.root, strings.Join(fr.c.stack, " > ")}
 		}
 	}
 	if keep {
-		st.held = append(st.held, heldLock{class, pos(p)})
+		st.held = append(st.held, heldLock{class: class, at: pos(p)})
 	}
 }
 
@@ -915,6 +928,11 @@ func (a *analysis) publish(sts []*state, s ast.Stmt) {
 			})
 			if pub {
 				delete(st.fresh, o)
+				for i := range st.held {
+					if st.held[i].unpub == o {
+						st.held[i].unpub = nil
+					}
+				}
 			}
 		}
 	}
